@@ -343,6 +343,11 @@ func oracleC18(x *Exec, r *StepRec) {
 				x.viol("C18", "request_id", fmt.Sprintf("request id %s does not split back", rid), nil)
 				return
 			}
+			// the textual form clients pass around converts back to the same id
+			if cv, err := types.ConvertRequestID(strings.ToUpper(rid)); err != nil || !bytes.Equal(cv, idb) {
+				x.viol("C18", "request_id", fmt.Sprintf("request id %s does not convert back from its hex form", rid), nil)
+				return
+			}
 			if x.tr.AllReqIDs[rid] {
 				x.viol("C18", "id_collision", fmt.Sprintf("request id %s issued twice", rid), nil)
 				return
